@@ -637,19 +637,54 @@ class BcdView final {
   ValueType UncheckedRead() const {
     return ConvertToBinary(buffer_.UncheckedReadUInt());
   }
-  void Write(ValueType value) const {
+  // As with UIntView, above, Write, TryToWrite, and CouldWriteValue need to be
+  // templated in order to avoid surprises due to implicit narrowing
+  // conversions: CouldWriteValue(300) on an 8-bit Bcd must be false, not
+  // CouldWriteValue(uint8_t(300)) == CouldWriteValue(44).
+  template <typename IntT,
+            typename = typename ::std::enable_if<
+                ::std::numeric_limits<typename ::std::remove_cv<
+                    typename ::std::remove_reference<IntT>::type>::type>::
+                    is_integer &&
+                !::std::is_same<bool, typename ::std::remove_cv<
+                                          typename ::std::remove_reference<
+                                              IntT>::type>::type>::value>::type>
+  void Write(IntT value) const {
     const bool result = TryToWrite(value);
     (void)result;
     EMBOSS_CHECK(result);
   }
-  bool TryToWrite(ValueType value) const {
+  template <typename IntT,
+            typename = typename ::std::enable_if<
+                ::std::numeric_limits<typename ::std::remove_cv<
+                    typename ::std::remove_reference<IntT>::type>::type>::
+                    is_integer &&
+                !::std::is_same<bool, typename ::std::remove_cv<
+                                          typename ::std::remove_reference<
+                                              IntT>::type>::type>::value>::type>
+  bool TryToWrite(IntT value) const {
     if (!CouldWriteValue(value)) return false;
     if (!IsComplete()) return false;
-    buffer_.WriteUInt(ConvertToBcd(value));
+    buffer_.WriteUInt(ConvertToBcd(static_cast<ValueType>(value)));
     return true;
   }
-  static constexpr bool CouldWriteValue(ValueType value) {
-    return value <= MaxValue() && Parameters::ValueIsOk(value);
+  template <typename IntT,
+            typename = typename ::std::enable_if<
+                ::std::numeric_limits<typename ::std::remove_cv<
+                    typename ::std::remove_reference<IntT>::type>::type>::
+                    is_integer &&
+                !::std::is_same<bool, typename ::std::remove_cv<
+                                          typename ::std::remove_reference<
+                                              IntT>::type>::type>::value>::type>
+  static constexpr bool CouldWriteValue(IntT value) {
+    // The value must be non-negative and at most MaxValue(); the comparison
+    // with MaxValue() is done in uint64_t so that no operand is narrowed.
+    return (!::std::is_signed<typename ::std::remove_cv<
+                typename ::std::remove_reference<IntT>::type>::type>::value ||
+            value >= 0) &&
+           static_cast</**/ ::std::uint64_t>(value) <=
+               static_cast</**/ ::std::uint64_t>(MaxValue()) &&
+           Parameters::ValueIsOk(static_cast<ValueType>(value));
   }
   void UncheckedWrite(ValueType value) const {
     buffer_.UncheckedWriteUInt(ConvertToBcd(value));
